@@ -23,6 +23,7 @@ META = {
 }
 META["explanation"] += " " + '(INV-above) a clearing loop that precedes `index_ = E` clears every word above E (E-ZONE state at the assignment: a proof of loop bound >= E + 1 is a violation). (SB-clearabove) every non-constructor caller of a doOperation kind that sets index_ = 0 (Set, And; the kind is read from the explicit template argument the exporter records) clears the words above the new index_ afterwards. (SB-normalise) the members that can zero high words (Subtract, Multiply, Divide, ShiftRight) lower index_ under a zero test of a storage word.'
 META["explanation"] += " " + '(SB-raise) Add and the |= arms assign index_ = E only under E > index_. SB-clearabove additionally: the stores of the replacing kind (Set) are unconditional inside their arm. (RV-use, shared) a moved-from BigInt is really emptied.'
+META["explanation"] += " " + '(SHIFT-width) E-ZONE, taught the idiom move = x / W; x -= move * W (then 0 <= x < W) and m = x / c with x >= c (then m >= 1), proves every shift of a storage word is by at most TypeWidth() - 1. (ZB-count) a loop that decrements index_ once per unit of a counter is entered with counter <= index_. INV-above additionally: the variable that walks down starts at the old top (index_ not yet overwritten).'
 
 B = "Qentem::BigInt::"
 NOT_DECIDED = {
@@ -209,6 +210,8 @@ def run(ctx):
     rules.append(rule_raise_only(ctx, m))
     from rules.common import rule_rvalue_use
     rules.append(rule_rvalue_use(ctx, m, floor=3, files=["BigInt.hpp"]))
+    rules.append(rule_shift_width(ctx, m, zone_ct))
+    rules.append(rule_counted_decrement(ctx, m, zone_ct))
     return rules
 
 
@@ -249,9 +252,19 @@ def rule_clear_above(ctx, m, ct):
                        f.text(f.nodes[x]["ch"][0]).replace("this.", "") == "index_"]
             if not assigns:
                 # the loop itself leaves index_ (or a local compared with index_) at the new top: cleared (index_, old] by construction
+                # -- provided the variable that walks down started at the OLD top: index_ itself not yet overwritten, or a local
+                # that saved it
                 if "index_" in f.text(yn) or "index_" in f.text(xn):
                     ctx.note_fn(f)
-                    r.ob(f.sig, "while (%s %s %s) clear" % (f.text(xn), op, f.text(yn)), True, "the loop runs down to index_ itself: every word above it is cleared", f.loc(w))
+                    walker = f.text(xn).replace("this.", "")
+                    earlier = [x for x in f.walk() if x < w and f.nodes[x]["k"] == "BinaryOperator" and f.nodes[x]["op"] == "=" and
+                               f.text(f.nodes[x]["ch"][0]).replace("this.", "") == "index_"]
+                    inits = [x for x in f.walk() if x < w and f.nodes[x]["k"] == "MemberExpr" and False]
+                    stale = walker == "index_" and bool(earlier)
+                    r.ob(f.sig, "while (%s %s %s) clear" % (f.text(xn), op, f.text(yn)), not stale,
+                         "the loop runs from the old top down to index_ itself: every word above it is cleared" if not stale else
+                         "`%s` at %s already replaced the old top: the loop starts from the NEW index_ and clears none of the words the shorter value leaves behind" % (
+                             f.text(earlier[0]), f.loc(earlier[0])[0] if isinstance(f.loc(earlier[0]), tuple) else f.loc(earlier[0])), f.loc(w))
                 continue
             a = assigns[0]
             ctx.note_fn(f)
@@ -457,3 +470,140 @@ def rule_raise_only(ctx, m):
             r.ob(f.sig, "%s: index_ = %s" % (what, E), guarded, "raised only: the assignment is under `%s > index_`" % E if guarded else
                  "index_ is assigned without the test `%s > index_`: when the object is longer than the operand index_ is lowered and the upper words are forgotten" % E, f.loc(x))
     return r
+
+
+
+def rule_shift_width(ctx, m, ct):
+    """SHIFT-width: shifting a word by its own width or more is undefined (on x86 a shift by 64 is a shift by 0: the word is
+    OR-ed onto itself).  ShiftLeft / ShiftRight split the amount into whole words and a remainder and shift words by the
+    remainder `offset` and by `TypeWidth() - offset`.  E-ZONE, taught the one idiom the difference-bound domain cannot derive
+    (after  move = x / W;  x -= move * W  the remainder satisfies 0 <= x < W), proves at every shift of a storage word that
+    the amount is at most TypeWidth() - 1."""
+    from qlib import dataflow
+    r = Rule("SHIFT-width", "every shift of a BigInt word is by less than the word width", floor=6)
+    for f in m.functions:
+        if f.inst or not f.cfg or f.cls != "Qentem::BigInt" or f.name not in ("ShiftLeft", "ShiftRight"):
+            continue
+        ctx.note_fn(f)
+        z = ModZone(m, f, ct)
+        states = dataflow.run(f, z)
+        wcalls = [c for c in astq.calls(f, "TypeWidth")]
+        if not wcalls:
+            r.broke("%s: no TypeWidth() call to anchor the width" % f.q)
+            continue
+        blocks = f.blocks()
+        for bid, st0 in states.items():
+            st = z.copy(st0)
+            for e in blocks[bid]["el"]:
+                x = e.get("n")
+                if isinstance(x, int) and not e.get("k") and not st.bottom:
+                    n = f.nodes[x]
+                    amount = None
+                    if n["k"] == "BinaryOperator" and n["op"] in ("<<", ">>"):
+                        amount, word = n["ch"][1], n["ch"][0]
+                    elif n["k"] == "CompoundAssignOperator" and n["op"] in ("<<=", ">>="):
+                        amount, word = n["ch"][1], n["ch"][0]
+                    if amount is not None and "storage_[" in f.text(word):
+                        A = z.lin(st, amount)
+                        W = z.lin(st, wcalls[0])
+                        ok = A is not None and W is not None and st.lin_le0((A - W).shift(1))
+                        r.ob(f.sig, f.text(x)[:60], ok, "the amount is proven <= TypeWidth() - 1 here" if ok else
+                             "the amount `%s` is not proven smaller than the word width on every path to this shift (a shift by exactly TypeWidth() reaches it): undefined behaviour, the word is combined with itself instead of moving a whole word" % f.text(amount)[:30],
+                             f.loc(x))
+                z.transfer(f, st, e, blocks[bid])
+    return r
+
+
+
+def rule_counted_decrement(ctx, m, ct):
+    """ZB-count: a loop that steps index_ down once per unit of a counter (--index_; --move; while (move != 0)) runs index_ below
+    zero -- it is unsigned: 0xFFFFFFFF, then storage_[0xFFFFFFFF] -- unless the counter is at most index_ when the loop is entered.
+    E-ZONE state at the first statement of the loop body: counter - index_ <= 0 must be proven (the lock-step decrements keep
+    the difference, so the fact at the entry is the loop invariant)."""
+    from qlib import dataflow
+    from qlib.zone import Zone, Lin
+    r = Rule("ZB-count", "a loop that decrements index_ once per unit of a counter is entered with counter <= index_", floor=1)
+    for f in m.functions:
+        if f.inst or not f.cfg or f.cls != "Qentem::BigInt":
+            continue
+        for w in astq.nodes_of(f, ("DoStmt", "WhileStmt")):
+            body = f.nodes[w].get("body", -1)
+            cond = f.nodes[w].get("cond", -1)
+            if body is None or body < 0 or cond is None or cond < 0:
+                continue
+            decs = [f.nodes[y]["ch"][0] for y in f.walk(body) if f.nodes[y]["k"] == "UnaryOperator" and f.nodes[y]["op"] == "--"]
+            dec_names = [f.text(d).replace("this.", "") for d in decs]
+            if "index_" not in dec_names:
+                continue
+            cn = f.nodes[f.strip(cond)]
+            if cn["k"] != "BinaryOperator" or cn["op"] != "!=" or f.const_value(cn["ch"][1]) != 0:
+                continue
+            counter = f.text(cn["ch"][0])
+            if counter.replace("this.", "") == "index_" or counter not in dec_names:
+                continue
+            ctx.note_fn(f)
+            z = ModZone(m, f, ct)
+            states = dataflow.run(f, z)
+            first = None
+            for b in f.cfg["blocks"]:
+                for e in b["el"]:
+                    if isinstance(e.get("n"), int) and not e.get("k") and e["n"] in set(f.walk(body)):
+                        first = (b["id"], e["n"])
+                        break
+                if first:
+                    break
+            ok = False
+            if first and first[0] in states:
+                st = z.copy(states[first[0]])
+                for e in f.blocks()[first[0]]["el"]:
+                    if e.get("n") == first[1]:
+                        break
+                    z.transfer(f, st, e, f.blocks()[first[0]])
+                C = z.lin(st, cn["ch"][0])
+                I = z.lin(st, decs[dec_names.index("index_")])
+                ok = C is not None and I is not None and not st.bottom and st.lin_le0(C - I)
+            r.ob(f.sig, "do { --index_; --%s; } while (%s != 0)" % (counter, counter), ok, "%s <= index_ holds whenever the body starts" % counter if ok else
+                 "nothing bounds `%s` by index_ when the loop is entered: with %s > index_ the unsigned index_ wraps below zero and the next store is far outside the object" % (counter, counter), f.loc(w))
+    return r
+
+
+from qlib.zone import Zone as _Zone, Lin as _Lin
+Zone, Lin = _Zone, _Lin
+
+
+class ModZone(Zone):
+    def transfer(self, fn, st, e, block):
+        Zone.transfer(self, fn, st, e, block)
+        x = e.get("n")
+        if not isinstance(x, int) or e.get("k") or st.bottom:
+            return
+        n = fn.nodes[x]
+        if n["k"] == "DeclStmt":
+            # m = x / c  with x >= c known:  m >= 1
+            for d in n["decls"]:
+                if "d" in d and d.get("init", -1) >= 0:
+                    dn = fn.nodes[fn.strip_casts(d["init"])]
+                    if dn["k"] == "BinaryOperator" and dn["op"] == "/":
+                        X, Cw = self.lin(st, dn["ch"][0]), self.lin(st, dn["ch"][1])
+                        if X is not None and Cw is not None and st.lin_le0(Cw - X):
+                            st.add_lin_le0(Lin({}, 1) - Lin({"v:%s#%d" % (d["n"], d["d"]): 1}))
+        if n["k"] == "CompoundAssignOperator" and n["op"] == "-=":
+            lhs, rhs = n["ch"]
+            rn = fn.nodes[fn.strip_casts(rhs)]
+            if rn["k"] == "BinaryOperator" and rn["op"] == "*":
+                a, b = rn["ch"]
+                for (mv, cw) in ((a, b), (b, a)):
+                    mn = fn.nodes[fn.strip_casts(mv)]
+                    if mn["k"] != "DeclRefExpr":
+                        continue
+                    # mv was initialised as  lhs / cw
+                    for ds in astq.nodes_of(fn, "DeclStmt"):
+                        for d in fn.nodes[ds]["decls"]:
+                            if d.get("d") == mn.get("d") and d.get("init", -1) >= 0:
+                                dn = fn.nodes[fn.strip_casts(d["init"])]
+                                if dn["k"] == "BinaryOperator" and dn["op"] == "/" and fn.text(dn["ch"][0]) == fn.text(lhs) and fn.text(dn["ch"][1]) == fn.text(cw):
+                                    t = self.term_of(lhs)
+                                    W = self.lin(st, cw)
+                                    if t is not None and W is not None:
+                                        st.add_lin_le0((Lin({t: 1}) - W).shift(1))       # x <= W - 1
+                                        st.add_lin_le0(Lin({}, 0) - Lin({t: 1}))          # x >= 0
